@@ -49,6 +49,11 @@ def literals(base, tier):
     return res
 
 
+def near_epochs(naive, zone):
+    z = ZoneInfo(zone)
+    return sorted({int(naive.replace(tzinfo=z, fold=f).timestamp()) for f in (0, 1)})
+
+
 def to_epoch(naive, zone):
     z = ZoneInfo(zone)
     aware = naive.replace(tzinfo=z)
@@ -64,6 +69,11 @@ def local_naive(epoch, zone):
 
 
 ZONES_T = ZONES + ['America/New_York', 'Australia/Lord_Howe', 'Pacific/Chatham', 'Asia/Kathmandu', 'America/St_Johns']
+
+
+MIDNIGHTS = [('America/Havana', (2021, 11, 7, 0, 30, 0)), ('America/Havana', (2021, 11, 7, 12, 0, 0)), ('America/Havana', (2021, 3, 14, 12, 0, 0)),
+             ('America/Havana', (2021, 3, 14, 1, 0, 0)), ('Atlantic/Azores', (2021, 10, 31, 0, 30, 0)), ('America/Santiago', (2021, 9, 5, 12, 0, 0)),
+             ('Asia/Beirut', (2021, 3, 28, 12, 0, 0))]
 
 
 def month_ends():
@@ -82,6 +92,12 @@ def groups(tier, seed):
     for zone in zones:
         for base in bases:
             yield {'kind': 'abs', 'zone': zone, 'base': list(base), 'only': None}
+    # days whose local midnight does not exist or exists twice
+    for zone, base in MIDNIGHTS:
+        yield {'kind': 'abs', 'zone': zone, 'base': list(base), 'only': None}
+    for zone, now in (('America/Havana', (2021, 11, 7, 12, 0, 0)), ('America/Havana', (2021, 3, 14, 12, 0, 0)),
+                      ('America/Havana', (2021, 11, 9, 6, 0, 0)), ('Atlantic/Azores', (2021, 10, 31, 12, 0, 0))):
+        yield {'kind': 'rel', 'zone': zone, 'now': list(now), 'only': None}
     nows = [(2021, 6, 15, 0, 0, 0), (2021, 6, 15, 12, 0, 0), (2021, 6, 15, 23, 59, 59), (2021, 5, 31, 23, 59, 59),
             (2020, 12, 31, 23, 0, 0), (2021, 1, 1, 0, 0, 1), (2021, 3, 28, 12, 0, 0), (2021, 3, 29, 0, 30, 0),
             (2021, 10, 31, 23, 0, 0), (2021, 11, 1, 0, 10, 0), (2020, 3, 1, 6, 0, 0), (2021, 3, 1, 6, 0, 0)]
@@ -146,10 +162,14 @@ def eval_group(env, group, tier):
         for text, q, a, b in lits:
             byint.setdefault((a, b), []).append((text, q))
         for (a, b), forms in byint.items():
-            ea, eb = to_epoch(a, zone), to_epoch(b, zone)
-            if ea is None or eb is None:
-                continue
-            pts = sorted({ea - 86400, ea - 1, ea, ea + 1, (ea + eb) // 2, eb - 1, eb, eb + 1, eb + 86400})
+            # instants around both ends of the interval; an end that does not exist (DST gap) or exists twice in the
+            # zone contributes the instants next to it - the truth of every comparison is computed from each file's
+            # own local wall-clock time, so nothing has to be skipped
+            cand = sorted(set(near_epochs(a, zone) + near_epochs(b, zone)))
+            pts = {(cand[0] + cand[-1]) // 2}
+            for e_ in cand:
+                pts.update((e_ - 86400, e_ - 3600, e_ - 1, e_, e_ + 1, e_ + 3600, e_ + 86400))
+            pts = sorted(pts)
             times = {'t%02d' % i: p for i, p in enumerate(pts)}
             root = env.newdir('c13')
             core.materialise(root, {n: F(1, mtime=p) for n, p in times.items()})
@@ -181,11 +201,9 @@ def eval_group(env, group, tier):
         times = {}
         for k in range(-9, 3):
             d = today + dt.timedelta(days=k)
-            e0 = to_epoch(d, zone)
-            if e0 is None:
-                continue
-            for j, p in enumerate((e0 - 1, e0, e0 + 43200)):
-                times['d%+03d_%d' % (k, j)] = p
+            for i_, e0 in enumerate(near_epochs(d, zone)):
+                for j, p in enumerate((e0 - 1, e0, e0 + 43200)):
+                    times['d%+03d_%d%s' % (k, j, 'x' * i_)] = p
         root = env.newdir('c13r')
         core.materialise(root, {n: F(1, mtime=p) for n, p in times.items()})
         try:
